@@ -323,12 +323,17 @@ class spawn(SpawnBase):
         and SIGINT). '''
 
         self.flush()
-        with _wrap_ptyprocess_err():
-            # PtyProcessError may be raised if it is not possible to terminate
-            # the child.
-            self.ptyproc.close(force=force)
+        try:
+            with _wrap_ptyprocess_err():
+                # PtyProcessError may be raised if it is not possible to
+                # terminate the child.
+                self.ptyproc.close(force=force)
+        finally:
+            # The descriptor has been released even when the child could not
+            # be terminated (force=False): never keep the stale number, which
+            # the OS may hand to somebody else.
+            self.child_fd = -1
         self.isalive()  # Update exit status from ptyproc
-        self.child_fd = -1
         self.closed = True
 
     def isatty(self):
